@@ -75,6 +75,13 @@ func genLifetimePlan(seed uint64, tier string) *Plan {
 		}
 		dop.I["expires"] = exp
 		dop.I["reqExpires"] = g.pick2(-1, -1, 0, 3*timeout, 2147483647)
+		if g.chance(25) {
+			// a subscription: a backend subscribes at a user agent through the proxy; the agent's answer (200 or 202
+			// Accepted, with or without Expires) establishes the pin
+			dop.S["type"] = "subscribe"
+			dop.I["subStatus"] = g.pick2(200, 200, 202)
+			dop.I["prov"] = 0
+		}
 		p.Ops = append(p.Ops, dop)
 		L := T
 		if exp > timeout {
@@ -279,7 +286,62 @@ func execLifetime(t *testing.T, p *Plan) *Result {
 			return append(out, rp)
 		}
 		// when the establishing response is handed to the proxy
+		establishSub := func(op *Op) {
+			ids := idsOf(op)
+			// the user agent registers first, so that the proxy knows it (and answers of the agent return through the proxy)
+			reg := dlgIDs{callID: "reg-" + op.ID, fromURI: ids.toURI, toURI: ids.toURI, fromTag: "r" + ids.toTag, ruri: ids.ruri, ua: ids.ua}
+			d.sendRequest(ids.ua, op.Listen, reg.request(reqOpts{method: "REGISTER", cseq: 1, style: 0, noToTag: true, srcAddr: ids.ua, id: op.ID + ".reg"}), op.ID+".reg")
+			noteTraffic()
+			w.K.Settle(10 * time.Second)
+			bs := d.reached[op.ID+".reg"]
+			if len(bs) != 1 {
+				w.stat("skipped:register-not-dispatched-once")
+				return
+			}
+			backend := bs[0]
+			reqID := op.ID + ".inv"
+			respExpires[reqID] = op.I["expires"]
+			respStatus[reqID] = op.I["subStatus"]
+			ringing[reqID] = 0
+			ua := udpAddr(ids.ua)
+			sub := dlgIDs{callID: ids.callID, fromURI: ids.fromURI, toURI: ids.toURI, fromTag: ids.fromTag, ruri: "sip:" + ids.ua}
+			extra := []sipwire.Header{{Name: "Route", Value: fmt.Sprintf("<sip:%s:%d;lr>", ua.IP, ua.Port)}, {Name: "Event", Value: "presence"}}
+			if e := op.I["reqExpires"]; e >= 0 {
+				extra = append(extra, sipwire.Header{Name: "Expires", Value: strconv.Itoa(e)})
+			}
+			data := sub.request(reqOpts{method: "SUBSCRIBE", cseq: 1, style: op.I["style"], noToTag: true, srcAddr: backend, id: reqID, extra: extra})
+			d.sentAt[reqID] = w.K.Elapsed()
+			d.send(d.bsock[backend], d.listenerAddr(op.Listen), data, 0)
+			noteTraffic()
+			w.K.Settle(10 * time.Second)
+			if got := d.reached[reqID]; len(got) != 1 || got[0] != ids.ua {
+				w.stat("skipped:subscribe-not-relayed-to-the-agent")
+				return
+			}
+			var t0 time.Duration = -1
+			for i := len(w.N.Events) - 1; i >= 0; i-- {
+				if ev := w.N.Events[i]; ev.Kind == "udp-arrive" && ev.A == ids.ua {
+					t0 = ev.At
+					break
+				}
+			}
+			if t0 < 0 {
+				w.stat("skipped:no-establishing-response")
+				return
+			}
+			life := timeout
+			if e := op.I["expires"]; time.Duration(e)*time.Second > life {
+				life = time.Duration(e) * time.Second
+			}
+			pins[op.ID] = &pinModel{backend: backend, t0: t0, life: life, op: op}
+			w.stat("pins-established")
+			w.stat(fmt.Sprintf("probe:subscription-pin-by-%d", op.I["subStatus"]))
+		}
 		establish := func(op *Op) {
+			if op.S["type"] == "subscribe" {
+				establishSub(op)
+				return
+			}
 			ids := idsOf(op)
 			reqID := op.ID + ".inv"
 			respExpires[reqID] = op.I["expires"]
